@@ -1,7 +1,7 @@
 """Base concept drift SPC (statistical process control) module."""
 
 import abc
-from typing import Any, Optional, Tuple, Union
+from typing import Any, Callable, Optional, Tuple, Union
 
 import numpy as np
 
@@ -321,14 +321,22 @@ class BaseECDDConfig(BaseConceptDriftStreamingConfig):
         :raises InvalidAverageRunLengthError: Invalid average run length error exception
         """
         super().__init__(min_num_instances=min_num_instances)
-        try:
-            self.control_limit_func = self.average_run_length_map[average_run_length]
-        except KeyError as e:
+        if average_run_length not in self.average_run_length_map:
             raise InvalidAverageRunLengthError(
                 "average_run_length must be 100, 400 or 1000."
-            ) from e
+            )
+        self._average_run_length = average_run_length
         self.lambda_ = lambda_
         self.warning_level = warning_level
+
+    @property
+    def control_limit_func(self) -> Callable:  # type: ignore
+        """Control limit function property.
+
+        :return: control limit polynomial of the average run length
+        :rtype: Callable
+        """
+        return self.average_run_length_map[self._average_run_length]
 
     @property
     def lambda_(self) -> float:
